@@ -262,6 +262,36 @@ def select_pass(cls):
             '    %s s).' % (SRC, names['want_read'], names['want_write'], upd(t1, f1), upd(t2, f2), term))
 
 
+def connect_fresh(cls):
+    """Reactor._connect: what a new connection starts with.  Of its statements only `self._buffer = b''` and
+    `self._outbox = queue.Queue()` touch the write path's state; the others (the connector call, socket options, building the
+    protocol and calling its connection_made, when_connected.set()) are listed here and skipped.  Both assignments must be
+    there, in a method that assigns nothing else to them."""
+    fds = [m for m in cls.body if isinstance(m, ast.FunctionDef) and m.name == '_connect']
+    if len(fds) != 1 or fds[0].decorator_list or len(fds[0].args.args) != 1:
+        raise Unsupported(cls, '_connect')
+    seen = []
+    for s in ast.walk(fds[0]):
+        if isinstance(s, (ast.Assign, ast.AugAssign)):
+            tg = s.targets[0] if isinstance(s, ast.Assign) else s.target
+            if self_attr(tg, '_buffer'):
+                if not (isinstance(s, ast.Assign) and isinstance(s.value, ast.Constant) and s.value.value == b''):
+                    raise Unsupported(s, 'assignment to self._buffer in _connect')
+                seen.append('buffer')
+            elif self_attr(tg, '_outbox'):
+                v = s.value
+                if not (isinstance(s, ast.Assign) and isinstance(v, ast.Call) and is_attr(v.func, 'Queue') and is_name(v.func.value, 'queue')
+                        and not v.args and not v.keywords):
+                    raise Unsupported(s, 'assignment to self._outbox in _connect')
+                seen.append('outbox')
+    if sorted(seen) != ['buffer', 'outbox']:
+        raise Unsupported(fds[0], '_connect must start a connection with an empty buffer and a fresh outbox (found %r)' % seen)
+    order = ' '.join('(set_%s [])' % x for x in seen)
+    a, b = ['(set_%s [] ' % x for x in reversed(seen)]
+    return ('(* %s: Reactor._connect - what a new connection starts with (a fresh, empty outbox; no unsent bytes) *)\n'
+            'Definition Reactor_connect (r : rstate) : rstate := %s%sr)).' % (SRC, a, b))
+
+
 def queue_steps():
     """hpfeeds/blocking/queue.py: Queue.put / Queue.get as the sequences of the model's primitive steps (Reactor.qev), in the
     source's order: the superclass put / get, and one wake-up byte sent / received on the socket pair"""
@@ -335,6 +365,7 @@ def main():
             defs.append('(* %s: Reactor.%s *)\nDefinition Reactor_%s%s : PM (option bool) :=\n  pfn %s.'
                         % (SRC, name, name.lstrip('_'), binders, body))
         defs.append(select_pass(cls[0]))
+        defs.append(connect_fresh(cls[0]))
         defs.extend(queue_steps())
         txt = ('(* GENERATED by harness/pytrans5.py from %s - do not edit *)\n'
                'From Coq Require Import List Bool Arith.\nFrom HP Require Import Bytes Reactor PyReactor.\nImport ListNotations.\n\n'
